@@ -11,7 +11,7 @@ BOUNDS = {
     "quick": "depth-1 loops over fibers with 0..3 stored elements (symbolic coordinates/values, explicit defaults): iter trace; a & b with intersect_0/1 + iter traces on "
              "0..2 x 0..2 elements; project trace with symbolic offset and interval; depth-2 matrix-vector nest (2x3, A symbolic incl. empty rows) with all seven trace types "
              "(iter, intersect_0/1, populate_1, populate_read_0/write_0) consumable; flush independence: the same nest on concrete operands with a symbolic flush "
-             "threshold num_cached_uses >= 2, file content versus in-memory rows",
+             "threshold num_cached_uses >= 2, file content versus in-memory rows; any subset of trace types registered, range-cut inner loops, a trace requested both as a file and as a consumable trace, an outer rank with tuple coordinates (associateShape), a dense reference traversal as outer loop, traces drained once per outer iteration",
     "thorough": "adds 3x3 intersections, depth-3 matrix-matrix nest, explicit-zero operands in the depth-2 nest, inserting populate (stamp order and completeness only)",
 }
 OUTSIDE = "traces emitted through the Fiber.trace() helper with a user-supplied iteration_num; trace *files* with symbolic content (writing realises the symbols)"
